@@ -275,18 +275,18 @@ def obligations(tier, scratch, say):
     rec["wall_s"] = round(time.time() - t0, 1)
     # cross-check with cvc5
     if tier == "thorough":
-        out2, dt2, err2 = run_parallel(["cvc5", "--lang", "smt2", "--incremental"], sc, cap)
+        out2, dt2, err2 = run_parallel(["z3-new", "-in"], sc, cap)
     else:
-        out2, dt2, err2 = None, 0.0, "cvc5 cross-check runs in the thorough tier"
+        out2, dt2, err2 = None, 0.0, "second-solver cross-check (z3 5.1) runs in the thorough tier"
     if out2 is not None and len(out2) == len(sc.expect):
-        rec["cvc5_agrees"] = (out2 == out)
-        rec["cvc5_s"] = round(dt2, 1)
+        rec["second_solver_agrees"] = (out2 == out)
+        rec["second_solver_s"] = round(dt2, 1)
         if out2 != out:
-            rec.update(verdict="inconclusive", why="z3 and cvc5 disagree")
+            rec.update(verdict="inconclusive", why="z3 4.8.12 and z3 5.1 disagree")
             res.append(rec)
             return res
     else:
-        rec["cvc5_agrees"] = None
+        rec["second_solver_agrees"] = None
     if wrong:
         n, o, e = wrong[0]
         # chain links are proposals of this script: a failing *link* is a machinery bug;
